@@ -109,11 +109,28 @@ func (h *handlerCount) hit(nonce string) {
 	h.mu.Unlock()
 }
 
+// padOf: a nonce ending in "~<n>" asks the echo tool for n bytes of padding derived from the nonce itself (so that the
+// caller can check every byte of a large answer).
+func padOf(nonce string) string {
+	i := strings.LastIndexByte(nonce, '~')
+	if i < 0 {
+		return ""
+	}
+	n, err := strconv.Atoi(nonce[i+1:])
+	if err != nil || n <= 0 {
+		return ""
+	}
+	return "#" + strings.Repeat(nonce, n/len(nonce)+1)[:n]
+}
+
+// expectText is what the echo tool answers for a nonce.
+func expectText(nonce string) string { return "echo:" + nonce + padOf(nonce) }
+
 func echoTool(hc *handlerCount) (*mcp.Tool, func(ctx context.Context, req *mcp.CallToolRequest) (*mcp.CallToolResult, error)) {
 	return mcp.NewTool("echo", mcp.WithString("nonce")), func(ctx context.Context, req *mcp.CallToolRequest) (*mcp.CallToolResult, error) {
 		n, _ := req.Params.Arguments["nonce"].(string)
 		hc.hit(n)
-		return mcp.NewTextResult("echo:" + n), nil
+		return mcp.NewTextResult(expectText(n)), nil
 	}
 }
 
@@ -133,6 +150,13 @@ func (d *dropLog) Debugf(format string, args ...interface{}) {
 		default:
 		}
 	}
+}
+
+func clip(s string) string {
+	if len(s) > 200 {
+		return s[:200] + fmt.Sprintf("… (%d bytes)", len(s))
+	}
+	return s
 }
 
 type callRes struct {
@@ -255,10 +279,17 @@ func judge(c *hk.Ctx, rc realCase, res []callRes, idOf func(nonce string) (strin
 			}
 			continue
 		}
-		if r.text == "echo:"+r.nonce {
+		if r.text == expectText(r.nonce) {
 			done[id] = "answer:" + id
+		} else if strings.HasPrefix(r.text, "echo:"+r.nonce+"#") || r.text == "echo:"+r.nonce {
+			done[id] = "answer:" + id
+			c.Violate(hk.Violation{Fingerprint: "pending:answer-payload-corrupted:" + rc.transport, What: "a call returned its own answer but not with the payload the handler produced",
+				Input: map[string]any{"case": rc.name(), "request_id": id, "nonce": r.nonce}, Observed: map[string]any{"length": len(r.text)}, Expected: map[string]any{"length": len(expectText(r.nonce))}})
 		} else {
 			other := strings.TrimPrefix(r.text, "echo:")
+			if i := strings.IndexByte(other, '#'); i >= 0 {
+				other = other[:i]
+			}
 			oid := "?"
 			for i, n := range nonceOfID {
 				if n == other {
@@ -267,7 +298,7 @@ func judge(c *hk.Ctx, rc realCase, res []callRes, idOf func(nonce string) (strin
 			}
 			done[id] = "answer:" + oid
 			c.Violate(hk.Violation{Fingerprint: "pending:foreign-answer:" + rc.transport, What: "a call returned a result that was not computed from its own arguments",
-				Input: map[string]any{"case": rc.name(), "request_id": id, "nonce": r.nonce}, Observed: r.text, Expected: "echo:" + r.nonce})
+				Input: map[string]any{"case": rc.name(), "request_id": id, "nonce": r.nonce}, Observed: clip(r.text), Expected: clip(expectText(r.nonce))})
 		}
 	}
 	for _, r := range res {
@@ -288,7 +319,8 @@ func emitRun(c *hk.Ctx, rc realCase, done map[string]string, nontrivial bool) {
 	k := rc.callers * rc.per
 	var evs []any
 	for i := 0; i < k; i++ {
-		evs = append(evs, map[string]any{"e": "issue"})
+		// "register" is a step of its own only in the region where the insert follows the send; here it follows at once
+		evs = append(evs, map[string]any{"e": "issue"}, map[string]any{"e": "register", "c": rc.start + 1 + int64(i)})
 	}
 	// answers in a seeded order (any order gives the same outcome in the model — that is the theorem)
 	perm := c.Rng.Perm(k)
@@ -486,6 +518,9 @@ func realStdio(c *hk.Ctx, rc realCase) {
 		parts := strings.Split(res[i].text, "|")
 		if len(parts) == 3 {
 			nonce := strings.TrimPrefix(parts[0], "echo:")
+			if j := strings.IndexByte(nonce, '#'); j >= 0 {
+				nonce = nonce[:j]
+			}
 			idOf[nonce] = strings.TrimPrefix(parts[1], "id=")
 			counts[nonce], _ = strconv.Atoi(strings.TrimPrefix(parts[2], "n="))
 			res[i].text = parts[0]
